@@ -66,7 +66,7 @@ ASSUMPTIONS = [
 HDR = 'From ScaredV Require Import Model.Kernels.\nFrom ScaredV Require Model.Partitioned.'
 METRICS = ['ANOVA', 'NICV', 'SNR']
 THREADS = [1, 2, 3, 8, 16]
-INT_DTYPES = ('uint8', 'int16', 'int32', 'int64')
+INT_DTYPES = ('uint8', 'int8', 'int16', 'int32', 'int64')
 
 
 # ---------------------------------------------------------------------------------------------- numbers
@@ -216,9 +216,81 @@ def _run_templ(case):
     return dict(groups=_group(per_run), **extra)
 
 
+def _expand(case):
+    """Run-length batches [[zrow, drow, count], ...] -> the 'traces' / 'data' / 'splits' of an ordinary case."""
+    traces, data, splits = [], [], []
+    for b in case['rl']:
+        k = 0
+        for z, d, c in b:
+            traces += [list(z)] * c
+            data += [list(d)] * c
+            k += c
+        splits.append(k)
+    return traces, data, splits
+
+
+def _run_rl(case):
+    traces, data, splits = _expand(case)
+    c = dict(case, traces=traces, data=data, exp=0)
+    if case['kind'] == 'bpart':
+        return _run_part(dict(c, kind='part', splits=splits))
+    if any(k != splits[0] for k in splits[:-1]) or splits[-1] > splits[0]:
+        raise HarnessError('template boundary case: batches of unequal length')
+    return _run_templ(dict(c, kind='templ', bs=splits[0]))
+
+
+def _run_ttest(case):
+    from scared import ttest
+    tr = _trace_array(case)
+    tr0 = tr.copy()
+    per = []
+    for t in case['threads']:
+        used = _threads(t)
+        acc = ttest.TTestThreadAccumulator(precision=case['prec'])
+        o = 0
+        with warnings.catch_warnings(), np.errstate(all='ignore'):
+            warnings.simplefilter('ignore')
+            for k in case['splits']:
+                acc.update(tr[o:o + k])
+                o += k
+            acc.compute()
+        per.append(({'threads': used}, {'n': float(acc.processed_traces), 'sum': _fl(acc.sum), 'sq': _fl(acc.sum_squared),
+                                        'mean': _fl(acc.mean), 'var': _fl(acc.var)}))
+    extra = {} if np.array_equal(tr, tr0) else {'input_modified': True}
+    return dict(groups=_group(per), **extra)
+
+
+def _run_mia(case):
+    import scared
+    tr = _trace_array(case)
+    da = np.array(case['data'], dtype=case['ddtype'])
+    edges = [float(_value(z, case['exp'])) for z in case['edges']]
+    per = []
+    for t in case['threads']:
+        _set_lut(False)
+        used = _threads(t)
+        d = scared.MIADistinguisher(bins_number=len(edges) - 1, bin_edges=edges, partitions=list(case['parts']))
+        o = 0
+        with warnings.catch_warnings(), np.errstate(all='ignore'):
+            warnings.simplefilter('ignore')
+            for k in case['splits']:
+                d.update(tr[o:o + k], da[o:o + k])
+                o += k
+            r = np.asarray(d.compute(), dtype='float64')
+        per.append(({'threads': used}, {'acc': _fl(d.accumulators), 'result': _fl(r.reshape(r.shape[0], -1))}))
+    return dict(groups=_group(per))
+
+
 def run_case(case):
     try:
-        return _run_part(case) if case['kind'] == 'part' else _run_templ(case)
+        k = case['kind']
+        if k in ('bpart', 'btempl'):
+            return _run_rl(case)
+        if k == 'ttest':
+            return _run_ttest(case)
+        if k == 'mia':
+            return _run_mia(case)
+        return _run_part(case) if k == 'part' else _run_templ(case)
     except HarnessError:
         raise
     except Exception as e:  # an exception of the implementation is an observation
@@ -248,7 +320,7 @@ def _prefetch(cases, nworkers):
 
     def cost(c):          # seconds, roughly: a launch with 16 threads is slow on a loaded machine
         nb = _nb_of(c)
-        return sum((0.5 if r['threads'] >= 16 else 0.03) * nb for r in c['runs']) + 0.002 * len(c['traces']) * len(c['traces'][0])
+        return sum((0.5 if r['threads'] >= 16 else 0.03) * nb for r in _run_list(c)) + 0.0005 * _nrows(c)
 
     chunks = []           # a signature with many cases is split (each chunk pays the JIT compilation again, in parallel)
     for sg, cs in sigs.items():
@@ -401,7 +473,99 @@ def templ_case(rng, prec, tdtype, P, S, n, bs, lists, *, kindv='int', lo=0, hi=1
 
 
 def _nb_of(case):
-    return len(case['splits']) if case['kind'] == 'part' else -(-len(case['traces']) // case['bs'])
+    if case['kind'] in ('bpart', 'btempl'):
+        return len(case['rl'])
+    if case['kind'] in ('part', 'ttest', 'mia'):
+        return len(case['splits'])
+    return -(-len(case['traces']) // case['bs'])
+
+
+def _nrows(case):
+    if 'rl' in case:
+        return sum(c for b in case['rl'] for _, _, c in b)
+    return len(case['traces'])
+
+
+def _run_list(case):
+    return case['runs'] if 'runs' in case else [{'threads': t, 'choices': []} for t in case['threads']]
+
+
+POPULATIONS = [255, 256, 257, 511, 512, 513, 1023, 1024, 1025, 2047, 2048, 2049, 4096]
+TOTALS = [1024, 2048, 2049, 4096, 4097, 6144, 8192]
+
+
+def _rl_batch(rng, S, W, parts, pops, total):
+    """Runs (zrow, drow, count): class k of word 0 has population pops[k]; undeclared rows fill the batch up to `total`."""
+    runs = []
+    und = max(parts) + 2
+    for k, N in enumerate(pops):
+        left = N
+        while left > 0:
+            c = left if left <= 3 or rng.random() < 0.3 else rng.randint(1, left)
+            runs.append([[rng.randint(-7, 7) for _ in range(S)], [parts[k]] + [rng.choice(parts + [und]) for _ in range(W - 1)], c])
+            left -= c
+    fill = total - sum(pops)
+    if fill < 0:
+        raise HarnessError('populations exceed the batch size')
+    while fill > 0:
+        c = fill if rng.random() < 0.5 else rng.randint(1, fill)
+        runs.append([[rng.randint(-7, 7) for _ in range(S)], [und] * W, c])
+        fill -= c
+    rng.shuffle(runs)
+    return runs
+
+
+def rl_case(rng, kind, prec, P, S, W, pops_per_batch, total, lists, threads=(1, 2, 3, 8, 16), heavy=1, metric='NICV'):
+    parts = list(range(P))
+    rl = []
+    for i, pops in enumerate(pops_per_batch):
+        tot = total if (kind == 'btempl' and i < len(pops_per_batch) - 1) or total >= sum(pops) else sum(pops)
+        rl.append(_rl_batch(rng, S, W, parts, list(pops) + [0] * (P - len(pops)), max(tot, sum(pops))))
+    c = {'kind': kind, 'prec': prec, 'tdtype': 'int16', 'ddtype': 'uint8', 'parts': parts, 'rl': rl, 'runs': _runs(rng, lists, list(threads), heavy),
+         'flavour': 'boundary'}
+    if kind == 'bpart':
+        c.update(metric=metric, sig=f'part/int16/{prec}')
+    else:
+        c.update(sig=f'templ/int16/{prec}')
+    return c
+
+
+def _pops(rng, P, total, must):
+    """P class populations from POPULATIONS (the first ones from `must`) fitting in `total`."""
+    out = list(must)
+    while len(out) < P:
+        room = total - sum(out)
+        cands = [v for v in POPULATIONS + [0, 1, 2] if v <= room]
+        out.append(rng.choice(cands) if cands else 0)
+    return out
+
+
+def ttest_case(rng, prec, tdtype, S, n, nb, kindv='int', lo=0, hi=255, offset=0.0, amp=1.0, threads=(1, 2, 3, 8, 16)):
+    if kindv == 'int':
+        ext = [lo, hi, hi, hi - 1, lo + 1]
+        traces, e = [[rng.choice(ext) if rng.random() < 0.5 else rng.randint(lo, hi) for _ in range(S)] for _ in range(n)], 0
+    else:
+        traces, e = _float_traces(rng, n, S, [[0]] * n, tdtype, offset, amp)
+    return {'kind': 'ttest', 'prec': prec, 'tdtype': tdtype, 'exp': e, 'traces': traces, 'data': [[0]] * n, 'parts': [0], 'splits': _splits(rng, n, nb),
+            'threads': list(threads), 'sig': f'ttest/{tdtype}/{prec}', 'flavour': kindv if kindv == 'int' else f'float+{offset:g}'}
+
+
+def mia_case(rng, tdtype, P, S, W, n, nb, lo, hi, step, kindv='int', threads=(1, 2, 3, 8, 16)):
+    parts = list(range(P))
+    data = _data(rng, n, W, parts, [P + 1])
+    edges = list(range(lo, hi + 1, step))
+    if kindv == 'int':
+        pool = edges + [edges[-1] - 1, edges[0] + 1]
+        traces, e = [[rng.choice(pool) if rng.random() < 0.4 else rng.randint(max(lo - 3, 0 if tdtype == 'uint8' else lo - 3), hi + 3) for _ in range(S)]
+                     for _ in range(n)], 0
+        if tdtype == 'uint8':
+            traces = [[min(255, v) for v in r] for r in traces]
+        ez = edges
+    else:
+        traces, e = _to_zexp([[float(np.float32(rng.choice(edges) if rng.random() < 0.3 else rng.uniform(lo - 1, hi + 1))) for _ in range(S)] for _ in range(n)])
+        ez = [v << (-e) for v in edges]
+    return {'kind': 'mia', 'tdtype': tdtype, 'ddtype': 'uint8', 'parts': parts, 'exp': e, 'edges': ez, 'traces': traces, 'data': data,
+            'splits': _splits(rng, n, nb), 'threads': list(threads), 'sig': f'mia/{tdtype}', 'flavour': kindv, 'prec': 'uint32'}
 
 
 class KernelKind(Kind):
@@ -417,7 +581,7 @@ class KernelKind(Kind):
             '{1,2,3,8,16}, class-set sizes 2, 8, 9, 10, 12 (the hook log must be empty above 9 classes), undeclared values in the data, '
             'integer traces (int16, int64 incl. multiples of 2^33; exact: ONE bit-identical observation over all runs, equal to the class '
             'sums), float32 / float64 traces with offsets 0, 1000.123, 1e6 and precision float32 / float64 (incl. float32 traces with '
-            'float64 precision), a wide case (48 samples x 64 traces per batch, 8/16 threads) as a race probe; non-trivial = at least two '
+            'float64 precision), a wide case (48 samples x 64 traces per batch, 8/16 threads) as a race probe; run-length encoded batches with class populations and batch sizes at 255..4097 (powers of two and their neighbours) for both kernel pairs under every choice sequence; the t-test accumulator and the MIA distinguisher under 1,2,3,8,16 threads (narrow integer dtypes with extreme values, float32 traces with float64 precision); non-trivial = at least two '
             'distinct choice sequences or thread counts ran and some class holds two traces')
 
     def __init__(self):
@@ -505,6 +669,37 @@ class KernelKind(Kind):
         for i, (td, pr, off, amp) in enumerate(tf):
             yield templ_case(rng, pr, td, (4, 9, 10)[i % 3], 3, 36, 12, _all_lists(3), kindv='float', offset=off, amp=amp)
         yield templ_case(rng, 'float64', 'int16', 8, 12, 128, 32, [[0, 0, 0, 0], [1, 1, 1, 1], [0, 1, 0, 1]] * 2, lo=0, hi=6, threads=(8, 16, 16, 8, 16, 8), heavy=3)
+        # ---- population / batch-size boundaries inside the kernels (run-length encoded batches, exact integers)
+        t3 = _all_lists(3)
+        yield rl_case(rng, 'bpart', 'float32', 3, 2, 1, [[1024, 257, 0], [2048, 1023, 1], [512, 4096, 255]], 0, t3)
+        yield rl_case(rng, 'bpart', 'float32', 3, 1, 2, [[256, 255, 513], [1025, 511, 512]], 2048, _all_lists(2), metric='SNR')
+        yield rl_case(rng, 'btempl', 'float64', 3, 2, 1, [[1024, 257, 0], [2048, 1023, 1], [512, 2049, 255]], 4096, t3)
+        yield rl_case(rng, 'btempl', 'float64', 4, 1, 1, [[256, 1024, 511, 2], [1025, 512, 255, 256]], 2048, _all_lists(2))
+        for _ in range(1 if quick else 10):
+            P = rng.choice([2, 3, 4, 9, 10])
+            nb = rng.randint(2, 3)
+            total = rng.choice(TOTALS)
+            pp = [_pops(rng, P, total, [rng.choice([1024, 2048, 4096, 512, 256])] if total >= 4096 else [rng.choice([256, 512, 1024])]) for _ in range(nb)]
+            yield rl_case(rng, 'bpart', rng.choice(['float32'] if quick else ['float32', 'float64']), P, rng.randint(1, 2), rng.randint(1, 2), pp, total,
+                          _all_lists(nb), metric=metric())
+            pp = [_pops(rng, min(P, 4), total, [rng.choice([1024, 2048, 512, 256])] if total >= 2048 else [rng.choice([256, 512, 1024])]) for _ in range(nb)]
+            yield rl_case(rng, 'btempl', 'float64', min(P, 4), rng.randint(1, 2), 1, pp, total, _all_lists(nb))
+        # ---- thread counts: the t-test accumulator and the MIA distinguisher
+        yield ttest_case(rng, 'float32', 'uint8', 3, 40, 2, lo=0, hi=255)
+        yield ttest_case(rng, 'float64', 'int16', 2, 50, 3, lo=-32768, hi=32767)
+        yield ttest_case(rng, 'float64', 'float32', 3, 40, 2, kindv='float', offset=1000.123, amp=1.0)
+        yield mia_case(rng, 'uint8', 4, 2, 2, 60, 2, 0, 256, 32)
+        yield mia_case(rng, 'float32', 3, 2, 1, 50, 2, 0, 16, 2, kindv='float')
+        if not quick:
+            yield ttest_case(rng, 'float32', 'int8', 3, 60, 2, lo=-128, hi=127)
+            yield ttest_case(rng, 'float64', 'uint8', 3, 200, 4, lo=0, hi=255)
+            yield ttest_case(rng, 'float32', 'int16', 2, 50, 2, lo=-32768, hi=32767)
+            yield ttest_case(rng, 'float32', 'float32', 2, 60, 3, kindv='float', offset=1e6, amp=8.0)
+            yield ttest_case(rng, 'float64', 'float64', 2, 60, 3, kindv='float', offset=1e6, amp=1.0)
+            yield ttest_case(rng, 'float64', 'float32', 4, 80, 3, kindv='float', offset=0.0, amp=1.0)
+            yield mia_case(rng, 'int16', 9, 3, 2, 120, 3, -64, 64, 8)
+            yield mia_case(rng, 'uint8', 10, 2, 3, 100, 2, 0, 255, 51)
+            yield mia_case(rng, 'float32', 4, 3, 2, 90, 3, -8, 8, 1, kindv='float')
         if not quick:
             for td, pr, lo, hi in [('uint8', 'float32', 0, 30), ('int64', 'float64', -3000, 3000), ('int16', 'float32', -30, 30)]:
                 for P in (3, 9):
@@ -524,7 +719,7 @@ class KernelKind(Kind):
             nworkers = 5 if self._tier == 'quick' else 10
             t0 = time.time()
             self._cache = _prefetch(self._pending, nworkers)
-            core.log(f'  [C11] {len(self._pending)} cases / {sum(len(c["runs"]) for c in self._pending)} runs on the real code in {time.time() - t0:.1f}s')
+            core.log(f'  [C11] {len(self._pending)} cases / {sum(len(_run_list(c)) for c in self._pending)} runs on the real code in {time.time() - t0:.1f}s')
         if cid is not None and str(cid) in self._cache and self._pending and cid < len(self._pending) and self._pending[cid] is case:
             o = self._cache[str(cid)]
             if 'harness_error' in o:
@@ -550,6 +745,35 @@ class KernelKind(Kind):
             return C.coq_list(rs, lambda r: '{| kr_choices := %s; kr_threads := %s; kr_log := %s |}' % (
                 bl(r['choices']), C.coq_nat(r['threads']), bl(r['log'])))
 
+        nl = C.coq_list
+        prec = 'F32' if case['prec'] == 'float32' else 'F64'
+        groups = obs.get('groups', []) if 'raised' not in obs else []
+        if case['kind'] in ('bpart', 'btempl'):
+            bt = nl(case['rl'], lambda b: nl(b, lambda r: '((%s, %s), %d%%positive)' % (zl(r[0]), zl(r[1]), r[2])))
+            if case['kind'] == 'bpart':
+                ol = nl(groups, lambda g: '{| po_runs := %s; po_result := %s; po_cnt := %s; po_sum := %s; po_sq := %s |}' % (
+                    runs(g['runs']), fl2(g['obs']['result']), fl2(g['obs']['cnt']), fl3(g['obs']['sum']), fl3(g['obs']['sq'])))
+                return 'KBP {| bp_prec := %s; bp_parts := %s; bp_batches := %s; bp_obs := %s |}' % (prec, zl(case['parts']), bt, ol)
+            ol = nl(groups, lambda g: '{| to_runs := %s; to_templates := %s; to_cov := %s |}' % (
+                runs(g['runs']), fl2(g['obs']['templates']), fl2(g['obs']['cov'])))
+            return 'KBT {| bt_prec := %s; bt_parts := %s; bt_batches := %s; bt_obs := %s |}' % (prec, zl(case['parts']), bt, ol)
+        if case['kind'] in ('ttest', 'mia'):
+            rows, o, batches = list(zip(case['traces'], case['data'])), 0, []
+            for k in case['splits']:
+                batches.append(rows[o:o + k])
+                o += k
+            th = lambda g: nl([r['threads'] for r in g['runs']], C.coq_nat)
+            f1 = lambda v: nl(v, core.float_to_coq)
+            if case['kind'] == 'ttest':
+                ol = nl(groups, lambda g: '{| tt_threads := %s; tt_n := %s; tt_sum := %s; tt_sq := %s; tt_mean := %s; tt_var := %s |}' % (
+                    th(g), C.coq_z(int(g['obs']['n'])), f1(g['obs']['sum']), f1(g['obs']['sq']), f1(g['obs']['mean']), f1(g['obs']['var'])))
+                return 'KTT {| tt_prec := %s; tt_exp := %s; tt_batches := %s; tt_obs := %s |}' % (
+                    prec, C.coq_z(case['exp']), nl(batches, lambda b: nl(b, lambda r: zl(r[0]))), ol)
+            ol = nl(groups, lambda g: '{| mi_threads := %s; mi_acc := %s; mi_result := %s |}' % (
+                th(g), nl(g['obs']['acc'], fl3), fl2(g['obs']['result'])))
+            return 'KMI {| mi_parts := %s; mi_exp := %s; mi_edges := %s; mi_batches := %s; mi_obs := %s |}' % (
+                zl(case['parts']), C.coq_z(case['exp']), zl(case['edges']),
+                nl(batches, lambda b: nl(b, lambda r: C.coq_pair(zl(r[0]), zl(r[1])))), ol)
         rows = list(zip(case['traces'], case['data']))
         if case['kind'] == 'part':
             sp = case['splits']
@@ -581,8 +805,8 @@ class KernelKind(Kind):
         if obs.get('dtype'):
             return f'result / accumulator dtype {obs["dtype"]} is not the requested precision {case["prec"]}'
         if 'processed' in obs:
-            return f'build processed {obs["processed"]} traces instead of {len(case["traces"])}'
-        if case['kind'] == 'templ' or len(case['parts']) <= 9:
+            return f'build processed {obs["processed"]} traces instead of {_nrows(case)}'
+        if case['kind'] in ('templ', 'btempl') or len(case['parts']) <= 9:
             for g in obs.get('groups', []):
                 for r in g['runs']:
                     if r.get('left'):
@@ -593,13 +817,15 @@ class KernelKind(Kind):
         if 'groups' not in obs:
             return False
         rs = [r for g in obs['groups'] for r in g['runs']]
-        varied = len({(tuple(r['choices']), r['threads']) for r in rs}) >= 2
+        varied = len({(tuple(r.get('choices', [])), r['threads']) for r in rs}) >= 2
+        if case['kind'] in ('bpart', 'btempl', 'ttest'):
+            return varied
         vals = [row[0] for row in case['data']]
         return varied and any(vals.count(v) >= 2 for v in set(vals) if v in case['parts'])
 
     def features(self, case, obs):
         f = {'kind': case['kind'], 'sig': case['sig'], 'flavour': case['flavour'], 'P': len(case['parts']), 'batches': _nb_of(case),
-             'runs': len(case['runs'])}
+             'runs': len(_run_list(case))}
         if 'groups' in obs:
             f['groups'] = 'one' if len(obs['groups']) == 1 else 'several'
             for t in sorted({r['threads'] for g in obs['groups'] for r in g['runs']}):
@@ -610,13 +836,49 @@ class KernelKind(Kind):
         return ['kernels_' + case['kind']]
 
     def sample(self, case, obs):
-        c = dict(case, traces=case['traces'][:4], data=case['data'][:4], runs=case['runs'][:4])
+        c = dict(case)
+        for k, m in (('traces', 4), ('data', 4), ('runs', 4), ('rl', 1)):
+            if k in c:
+                c[k] = c[k][:m]
         o = dict(obs)
         if 'groups' in o:
             o['groups'] = [{'runs': g['runs'][:3]} for g in o['groups'][:3]]
         return {'case': c, 'observed': o}
 
     def shrink(self, case):
+        if case['kind'] in ('ttest', 'mia'):
+            if len(case['threads']) > 1:
+                for t in case['threads']:
+                    yield dict(case, threads=[t])
+            S = len(case['traces'][0])
+            if S > 1:
+                for j in range(S):
+                    yield dict(case, traces=[[r[j]] for r in case['traces']])
+            if len(case['splits']) > 1:
+                yield dict(case, splits=[len(case['traces'])])
+            n = len(case['traces'])
+            if n > 1:
+                h = n // 2
+                for lo, hi in ((0, h), (h, n)):
+                    yield dict(case, traces=case['traces'][lo:hi], data=case['data'][lo:hi], splits=[hi - lo])
+            return
+        if case['kind'] in ('bpart', 'btempl'):
+            if len(case['runs']) > 1:
+                for r in case['runs']:
+                    yield dict(case, runs=[r])
+            nb = len(case['rl'])
+            if nb > 1:
+                for i in range(nb):
+                    yield dict(case, rl=[case['rl'][i]], runs=[dict(r, choices=[r['choices'][i]]) for r in case['runs']])
+            S = len(case['rl'][0][0][0])
+            if S > 1:
+                for j in range(S):
+                    yield dict(case, rl=[[[[z[j]], d, c] for z, d, c in b] for b in case['rl']])
+            if nb == 1 and len(case['rl'][0]) > 1:
+                b = case['rl'][0]
+                for i in range(len(b)):
+                    yield dict(case, rl=[b[:i] + b[i + 1:]])
+            return
         n = len(case['traces'])
         S = len(case['traces'][0])
         W = len(case['data'][0])
